@@ -229,6 +229,45 @@ def run_case(case, rec):
                 if k == 0:
                     rec.set_sample(kind=kind, n=n, b=b, key=key, mode=mode, first_batch=ob["pinn_in"])
             s.finish("epoch/obs")
+            if key % 2 == 0:
+                # the multi-network loader: one observation set per network, the per-network dictionaries written
+                # with unrelated key orders.  A served row (inputs | values | observed parameter) of network N is a row
+                # of N's own stored set, and an epoch serves each of them once
+                jax.clear_caches()
+                tabs = {}
+                for j, nm in enumerate(("u", "v")):
+                    r_ = np.arange(n, dtype=float) + 10000.0 * (j + 1)
+                    tabs[nm] = (np.stack([r_, 10.0 * r_ + 0.5], axis=1), (100.0 + r_)[:, None], (1000.0 + r_)[:, None])
+                J = jnp.asarray
+                order = [("u", "v"), ("v", "u")]
+                o1, o2, o3 = order[key % 4 // 2], order[1 - key % 4 // 2], order[(key // 4) % 2]
+                try:
+                    gm = guard.call(jinns.data.DataGeneratorObservationsMultiPINNs, b,
+                                    {k_: J(tabs[k_][0]) for k_ in o1}, {k_: J(tabs[k_][1]) for k_ in o2},
+                                    observed_eq_params_dict={k_: {"theta": J(tabs[k_][2])} for k_ in o3},
+                                    key=jax.random.PRNGKey(key))
+                except guard.Unsupported as u:
+                    rec.unsupp("multi: %s" % u.reason)
+                    return
+                # (the user's tables as the process's floating precision represents them)
+                full = {nm: np.concatenate([np.asarray(J(a_)) for a_ in tabs[nm]], axis=1) for nm in tabs}
+
+                def held(gg, nm):
+                    sg = gg.data_gen_obs[nm]
+                    return np.concatenate([np.asarray(sg.observed_pinn_in), np.asarray(sg.observed_values),
+                                           np.asarray(sg.observed_eq_params["theta"])], axis=1)
+
+                ms = {nm: Stream(rec, "observation rows of network %s (multi-network loader)" % nm, full[nm], b,
+                                 (kind, "multi", nm, n, b, key, mode)) for nm in tabs}
+                rec.count("multi_network_streams", len(ms))
+                for k in range(3 * (-(-n // b)) + 1):
+                    gm, ob = guard.call(step, gm)
+                    for nm in tabs:
+                        e_ = ob[nm]
+                        ms[nm].feed(np.concatenate([np.asarray(e_["pinn_in"]), np.asarray(e_["val"]),
+                                                    np.asarray(e_["eq_params"]["theta"])], axis=1), held(gm, nm))
+                for nm in tabs:
+                    ms[nm].finish("epoch/obs-multi")
         elif kind == "param":
             jax.clear_caches()
             pr = {"alpha": (0.0, 1.0)}
